@@ -45,6 +45,10 @@ func c03Scripts(g *Gen, id string, kind byte) []Action {
 		if rng.Chance(1, 3) {
 			return []Action{{Op: "obs"}, {Op: "abortstatus", N: 403}, {Op: "obs"}}
 		}
+	case 4:
+		if rng.Chance(1, 3) {
+			return []Action{{Op: "obs"}, {Op: "next"}, {Op: "panicif"}, {Op: "obs"}} // panics only on routers with a panic hook
+		}
 	}
 	return nil
 }
@@ -64,6 +68,9 @@ func genC03With(rng *Rng, sc *Scenario, coarse bool) {
 		CacheChance: [2]int{1, 2}, Caps: []int{0, 1, 2, 3, 1000},
 		FallbackOpts: true, Scripts: c03Scripts,
 	})
+	if rng.Chance(1, 4) {
+		sc.Options.OnPanic = "p0" // some handlers panic; the hook contains it (default script: status 500)
+	}
 	nTasks := rng.Range(2, 6)
 	if rng.Chance(1, 2) {
 		nTasks = rng.Range(2, 3)
@@ -112,6 +119,9 @@ func checkC03(sc *Scenario) *CheckOut {
 	if res.Overrun {
 		out.Viol = append(out.Viol, Violation{"C03", "no-progress", fmt.Sprintf("run exceeded %d scheduler steps", len(res.Steps)), ""})
 		return out
+	}
+	if v := poolViolation("C03", res); v != nil {
+		out.Viol = append(out.Viol, *v)
 	}
 	out.Viol = append(out.Viol, compareWithSoloTwins("C03", sc, res, BuildOpt{})...)
 	out.Nontrivial = res.Preemptions >= 2
